@@ -72,7 +72,10 @@ pub fn check_query(qc: &QueryCase, si: &SearchInstance, rep: &mut Report) {
         rep.count("degenerate_queries_skipped", 1);
         return;
     }
-    let allowed = vec![true; net.ne()];
+    // edge-local restrictions of the world (road classes, vehicle restrictions), read by the oracle from the raw
+    // configuration and the query
+    let allowed = crate::restrict::oracle_allowed(&world.frontier, &qc.query, net.ne()).unwrap_or_else(|| vec![true; net.ne()]);
+    let restricted = allowed.iter().any(|a| !a);
     let is_reachable = reachable(net, &allowed, o, true)[d];
     let budget = step_budget(net.nv(), net.ne(), k.max(1));
     let (out, ctx) = run_search(alg, si, od, false, &qc.query, budget, true);
@@ -147,6 +150,15 @@ pub fn check_query(qc: &QueryCase, si: &SearchInstance, rep: &mut Report) {
             rep.violate(&format!("C13|{fam}|route-invalid|{clause}"), format!("Y3 route {ri} {ids:?}: {}", fails.join("; ")), replay);
             clean = false;
             continue;
+        }
+        // a valid route keeps to the edges the query's restrictions permit, whichever search found it
+        if let Some(e) = mids[ri].iter().find(|e| !allowed[**e]) {
+            rep.violate(&format!("C13|{fam}|route-uses-forbidden-edge"), format!("Y3 route {ri} {ids:?} uses edge {e}, which the restrictions of the query forbid"), replay);
+            clean = false;
+            continue;
+        }
+        if restricted {
+            rep.count("routes_checked_against_edge_restrictions", 1);
         }
         if repeats_vertex(net, &mids[ri]) {
             rep.violate(&format!("C13|{fam}|route-not-loop-free"), format!("Y3 route {ri} {ids:?} visits a vertex twice"), replay);
@@ -231,8 +243,17 @@ fn case(tier: Tier, rng: &mut Rng, rep: &mut Report) {
     p.allow_turn_delay = rng.chance(0.25);
     p.mixed_units = false;
     p.surcharges = rng.chance(0.3);
-    let world = gen_world(rng, &p);
-    let mut qc = QueryCase { world, cut: vec![], query: json!({}), alg: Alg::Dijkstra, od: Od::Vertex(0, None), reverse: false, via_files: rng.chance(0.2) };
+    let mut world = gen_world(rng, &p);
+    // one world in five restricts edges (road classes, vehicle restrictions, both): the alternatives must keep to the
+    // permitted edges like the first route. drawn from a forked stream so that the other cases stay what they were
+    let mut rr = rng.fork(0xC13F);
+    let mut base_fields = serde_json::Map::new();
+    if rr.chance(0.2) {
+        let r = crate::restrict::gen_edge_local(&mut rr, &world.net);
+        world.frontier = r.cfg.clone();
+        base_fields = r.query_fields.clone();
+    }
+    let mut qc = QueryCase { world, cut: vec![], query: serde_json::Value::Object(base_fields.clone()), alg: Alg::Dijkstra, od: Od::Vertex(0, None), reverse: false, via_files: rng.chance(0.2) };
     let si = match qc.build() {
         Ok(s) => s,
         Err(e) => {
@@ -252,7 +273,11 @@ fn case(tier: Tier, rng: &mut Rng, rep: &mut Report) {
         let term = gen_kterm(rng, k);
         qc.alg = if rng.chance(0.6) { Alg::SingleVia { k, under, sim, term } } else { Alg::Yens { k, under, sim, term } };
         // k sometimes comes from the query instead of the configuration
-        qc.query = if rng.chance(0.3) { json!({"k": rng.urange(1, 6)}) } else { json!({}) };
+        let mut fields = base_fields.clone();
+        if rng.chance(0.3) {
+            fields.insert("k".into(), json!(rng.urange(1, 6)));
+        }
+        qc.query = serde_json::Value::Object(fields);
         let edge_oriented = rng.chance(0.25);
         qc.od = if edge_oriented { crate::searchcase::gen_edge_od(rng, &qc.world.net, true) } else { crate::searchcase::gen_vertex_od(rng, &qc.world.net, true) };
         check_query(&qc, &si, rep);
